@@ -292,8 +292,21 @@ fn do_op(c: &Content, cache: &DiskCache, op: &Op) {
     }
 }
 
+/// the cache's own view of its state; a cache whose lock was poisoned by a panic inside an operation has none: that is
+/// recorded (CcPanic has no counterpart in the specification) instead of taking the driver down
+#[allow(clippy::type_complexity)]
+fn snap(cache: &DiskCache) -> (Vec<(String, u32, u32, u64, u32, bool)>, usize, u64) {
+    match std::panic::catch_unwind(std::panic::AssertUnwindSafe(|| cache.verif_snapshot())) {
+        Ok(v) => v,
+        Err(_) => {
+            hemit("CcPanic", "\"where\":\"snapshot\"".to_string());
+            (vec![], 0, 0)
+        },
+    }
+}
+
 fn snapshot_items(c: &Content, cache: &DiskCache) -> (Vec<Value>, usize, u64) {
-    let (items, n, tb) = cache.verif_snapshot();
+    let (items, n, tb) = snap(cache);
     let mut v = vec![];
     for (ks, s, e, len, crc, _) in items {
         match c.by_keystr.get(&ks) {
@@ -307,7 +320,7 @@ fn snapshot_items(c: &Content, cache: &DiskCache) -> (Vec<Value>, usize, u64) {
 fn quiesce(c: &Content, cache: &DiskCache, root: &Path, readback: bool) {
     if readback {
         set_thread_actor("t1");
-        let (items, _, _) = cache.verif_snapshot();
+        let (items, _, _) = snap(cache);
         for (ks, s, e, _, _, _) in items {
             if let Some(k) = c.by_keystr.get(&ks) {
                 do_op(c, cache, &Op { kind: "get".into(), k: *k, s, e });
@@ -554,7 +567,15 @@ fn plant_junk(c: &Content, root: &Path, rng: &mut impl Rng) {
             1 => {
                 // inside a prefix directory (existing or a fresh two-character one)
                 let k = rng.gen_range(0..c.keys.len());
-                c.key_dir(root, k).parent().unwrap().to_path_buf()
+                let kd = c.key_dir(root, k);
+                if rng.gen_bool(0.5) {
+                    // a relative of the key directory's own name: the scan only looks at names that begin with the
+                    // prefix directory's characters
+                    let kn = kd.file_name().unwrap().to_string_lossy().to_string();
+                    let cut = [2usize, 4, 8, 40][rng.gen_range(0..4)].min(kn.len() - 1);
+                    name = kn[..cut].to_string();
+                }
+                kd.parent().unwrap().to_path_buf()
             },
             _ => {
                 let k = rng.gen_range(0..c.keys.len());
@@ -823,6 +844,21 @@ fn run_faults(ctl: &Arc<Ctl>, c: &Arc<Content>, cap: u64, rng: &mut impl Rng, ou
         for n in junk_names {
             for d in [false, true] {
                 faults.push(Fault::Junk(level, n.to_string(), d));
+            }
+        }
+    }
+    // relatives of a real key directory's name next to it (a directory renamed or cut short while the cache was closed):
+    // they begin with the two characters of the prefix directory, so the scan looks at them
+    {
+        let kn = c.key_dir(Path::new("/"), base[0].k).file_name().unwrap().to_string_lossy().to_string();
+        let mut rel: Vec<String> = [2usize, 3, 4, 8, 40, 43].iter().filter(|n| **n < kn.len()).map(|n| kn[..*n].to_string()).collect();
+        rel.push(format!("{kn}AAAA"));
+        rel.push(format!("{}AAAA", &kn[..kn.len().saturating_sub(4)].to_string()));
+        rel.push(format!("{}=", &kn[..kn.len() - 1]));
+        rel.push(format!("{}====", &kn[..4]));
+        for n in rel {
+            for d in [false, true] {
+                faults.push(Fault::Junk(1, n.clone(), d));
             }
         }
     }
